@@ -33,7 +33,7 @@ LISTS = ["_loads_min", "_loads_max", "_S_min", "_S_max", "_epsilon_min", "_epsil
 
 
 def run(ctx):
-    for r in (_r1, _r2, _r3, _r4, _r5, _r6, _r7, _r8):
+    for r in (_r1, _r2, _r3, _r4, _r5, _r6, _r7, _r8, _r9):
         ctx.attempt(r)
 
 
@@ -483,6 +483,74 @@ def _r7(ctx):
                          "strains visited in a later pass are counted as pass-1 values" % (f.name, cnt), text="increment " + f.name)
 
 
+def _r9(ctx):
+    """Several assessment points, chunked input: turning points are returned as global sample positions; subtracting the
+    chunk start gives positions into this chunk's load steps, and a negative one means 'the carried tail of the previous
+    chunk' (any distance back: -1, or further for a plateau).  .iloc with a negative position silently wraps to the end of
+    the chunk, so the repair with the stored last sample must be guarded by the complete sign test (< 0), and the stored
+    sample must be the last load step of the chunk."""
+    prog = ctx.prog
+    ctx.rule("R-C05-9", floor=3, what="chunk-relative positions: complete sign test guards the carried-tail repair; stored sample = last load step")
+    f = prog.func(D + "process")
+    nt = [c for c in calls_in(f.node) if isinstance(c.func, ast.Attribute) and is_self_attr(c.func) and c.func.attr == "_new_turns"]
+    if len(nt) != 1:
+        raise AnalysisError("process: _new_turns call not found")
+    st = nt[0]._parent
+    pos = st.targets[0].elts[0].id if isinstance(st, ast.Assign) and isinstance(st.targets[0], ast.Tuple) else None
+    head = [s_ for s_ in walk_stmts(f.node.body) if isinstance(s_, ast.Assign) and isinstance(s_.targets[0], ast.Name) and
+            is_self_attr(s_.value, "_head_index") and s_.lineno < st.lineno]
+    rel = [s_ for s_ in walk_stmts(f.node.body) if isinstance(s_, ast.Assign) and isinstance(s_.targets[0], ast.Name) and
+           isinstance(s_.value, ast.BinOp) and isinstance(s_.value.op, ast.Sub) and isinstance(s_.value.left, ast.Name) and
+           s_.value.left.id == pos and isinstance(s_.value.right, ast.Name) and head and s_.value.right.id == head[0].targets[0].id]
+    if not (pos and head and len(rel) == 1):
+        raise AnalysisError("process: chunk-relative positions (positions - head index read before _new_turns) not found")
+    r = rel[0].targets[0].id
+    ctx.holds(f, rel[0], "%s = global positions - head index before this chunk: negative means carried tail" % r)
+    guards = [s_ for s_ in walk_stmts(f.node.body) if isinstance(s_, ast.If) and any(isinstance(n, ast.Name) and n.id == r for n in ast.walk(s_.test))
+              and any(is_self_attr(n, "_last_sample") for b in s_.body for n in ast.walk(b))]
+    if len(guards) != 1:
+        raise AnalysisError("process: repair of the carried-tail turning point not found")
+    t = guards[0].test
+
+    def neg_test(t):
+        if not (isinstance(t, ast.Compare) and len(t.ops) == 1):
+            return False
+        l, op, rr = t.left, t.ops[0], t.comparators[0]
+
+        def first(e):
+            return isinstance(e, ast.Subscript) and isinstance(e.value, ast.Name) and e.value.id == r and const_value(e.slice) == 0
+
+        def num(e):
+            if isinstance(e, ast.UnaryOp) and isinstance(e.op, ast.USub):
+                v = const_value(e.operand)
+                return -v if isinstance(v, (int, float)) else None
+            return const_value(e)
+        if first(l):
+            return (isinstance(op, ast.Lt) and num(rr) == 0) or (isinstance(op, ast.LtE) and num(rr) == -1)
+        if first(rr):
+            return (isinstance(op, ast.Gt) and num(l) == 0) or (isinstance(op, ast.GtE) and num(l) == -1)
+        return False
+    if neg_test(t):
+        ctx.holds(f, guards[0], "carried-tail repair guarded by the complete sign test %s" % norm_text(t))
+    else:
+        ctx.violated(f, guards[0], "the repair of a turning point that lies in the previous chunk is guarded by %s, which does not "
+                     "cover every negative position (a plateau at the chunk end gives -2, -3, ...): .iloc then wraps around and "
+                     "takes the loads of an unrelated load step of this chunk" % norm_text(t), text="carried tail guard")
+    ls = [s_ for s_ in walk_stmts(f.node.body) if isinstance(s_, ast.Assign) and is_self_attr(s_.targets[0], "_last_sample")]
+    ok = False
+    if len(ls) == 1:
+        v = ls[0].value
+        key = v.slice if isinstance(v, ast.Subscript) else None
+        kd = [s_.value for s_ in walk_stmts(f.node.body) if isinstance(s_, ast.Assign) and isinstance(s_.targets[0], ast.Name) and
+              isinstance(key, ast.Name) and s_.targets[0].id == key.id and s_.lineno < ls[0].lineno]
+        ok = bool(kd) and isinstance(kd[-1], ast.Subscript) and isinstance(kd[-1].slice, ast.UnaryOp) and const_value(kd[-1].slice.operand) == 1 \
+            and isinstance(kd[-1].value, ast.Attribute) and kd[-1].value.attr == "iloc"
+    if ok:
+        ctx.holds(f, ls[0], "stored last sample = loads of the last load step of the chunk (.iloc[-1])")
+    else:
+        ctx.violated(f, ls[0] if ls else f.node, "the sample kept for the next chunk is not the last load step of this chunk", text="last sample")
+
+
 def _elem0(e):
     """X for X.values[0] / X.iloc[0] / X[0]; None otherwise"""
     if isinstance(e, ast.Subscript) and const_value(e.slice) == 0 and not isinstance(const_value(e.slice), bool):
@@ -606,6 +674,24 @@ C = "FKMNonlinearDetector."
 
 def variants():
     out = []
+
+    def tail_guard_eq(tree):
+        f = find_func(tree, C + "process")
+        for n in ast.walk(f):
+            if isinstance(n, ast.If) and "tindex[0]" in ast.unparse(n.test):
+                n.test = parse_expr("tindex[0] == -1")
+                return True
+        return False
+    out.append(witness("carried-tail repair only for position -1", FN, tail_guard_eq, "R-C05-9"))
+
+    def tail_guard_le(tree):
+        f = find_func(tree, C + "process")
+        for n in ast.walk(f):
+            if isinstance(n, ast.If) and "tindex[0]" in ast.unparse(n.test):
+                n.test = parse_expr("tindex[0] <= -1")
+                return True
+        return False
+    out.append(twin("carried-tail guard written <= -1", FN, tail_guard_le))
 
     def first_point_extreme(tree):
         f = find_func(tree, C + "_hcm_update_min_max_strain_values")
